@@ -18,7 +18,7 @@ def make_case(rng, multi):
         c['src'] += ' \\foreignlanguage{german}{Qzza Qzzb Qzzc Qzzd Qzze} Qzzf Qzzg.\n'
     src = c['src']
     if rng.random() < 0.4:
-        src = src.replace(' ', ' ä ', 1)        # non-ASCII text: xml-b counts bytes
+        src = 'ä ö ' + src        # non-ASCII text in front: xml-b counts bytes (not inserted in the middle: behind a control word it would glue to a word)
     if not src.endswith('\n') and rng.random() < 0.7:
         src += '\n'
     words = [w for w in re.findall(r'Q[a-z]+', src)]
